@@ -32,7 +32,8 @@ RULE = ("op sequences over a pool of 3-6 keys x (4 IPv4 + 3 IPv6 + 2 host-name a
         "objects or with the stored object, in-place add_address on the stored object, remove_peer (stored object or a "
         "fresh one), remove_by_address, blacklist appends, load_snapshot (valid, truncated, corrupted, UTF-8 host names), "
         "address arguments passed as objects of any of the 5 classes, up to two blacklisted mids, the implementation's own "
-        "snapshot fed back, interleaved with all get_* queries and snapshot; cache caps from {1,2,3,500}, raised mid-history. Random sequences of length 10..200 "
+        "snapshot fed back, services passed as list/tuple/one-shot generator/dict view/reused caller-owned set, discovery "
+        "strategies (EdgeWalk, RandomWalk) run as consumers of the live objects the lookups return, interleaved with all get_* queries and snapshot; cache caps from {1,2,3,500}, raised mid-history. Random sequences of length 10..200 "
         "are steered by a reference graph so that removals, updates and lookups mostly hit existing peers/addresses; "
         "exhaustive enumeration of all sequences over a 20 op alphabet (3 keys, 3 addresses, 2 services; caps 1/1/1) to "
         "depth 3 (quick) / 4 (thorough) and over a 10 op sub-alphabet to depth 5 (thorough), each followed by a sweep of "
@@ -52,6 +53,7 @@ ASSUMPTIONS = [
     "addresses are in canonical text form (inet_ntop output; a non-canonical IPv6 text does not survive snapshot/load in the code), ports < 65536, host names < 65536 bytes and not parseable as IP",
     "callers mutate a stored Peer only through Peer.add_address on the object they got from the index (modelled as an op) and only append to the blacklists; a Peer object that was removed is not passed in again (production re-submits removed identities as fresh Peer objects)",
     "cache caps are not lowered during a history (raising them is generated)",
+    "callers outside /repo's peerdiscovery package treat the lists/sets the Network returns as read-only (the Network hands out its live cache objects); the in-repo discovery strategies are exercised as consumers",
     "single-threaded use (graph_lock not modelled)",
 ]
 
@@ -419,6 +421,7 @@ class Spec:
 
 
 MUTATORS = {"add", "disc", "svcs", "set", "rmp", "rma", "bla", "blm", "load", "caps"}
+CONTAINERS = ["L", "T", "G", "D", "S0", "S1"]
 SITE = {"qa": "get_verified_by_address", "qk": "get_verified_by_public_key_bin", "qs": "get_peers_for_service",
         "qw": "get_walkable_addresses", "qi": "get_introductions_from", "qsp": "get_services_for_peer",
         "qn": "is_new_style", "snap": "snapshot"}
@@ -466,6 +469,11 @@ REQUIRED_CLASSES = {
     "address arguments by class": ["address-argument-class:0", "address-argument-class:1", "address-argument-class:2",
                                    "address-argument-class:3", "address-argument-class:4"],
     "observers": ["observer:added", "observer:removed"],
+    "consumers in /repo (objects handed out)": ["walk:EdgeWalk", "walk:RandomWalk", "walk:issues:qs", "walk:issues:qw",
+                                                 "walk:issues:qi", "walk:issues:qa"],
+    "containers handed in": ["svcs:services-passed-as:list", "svcs:services-passed-as:tuple",
+                             "svcs:services-passed-as:one-shot-generator", "svcs:services-passed-as:dict-keys-view",
+                             "svcs:services-passed-as:callers-own-set-reused"],
 }
 
 
@@ -491,6 +499,79 @@ class Real:
     def __init__(self):
         self.W = world()
         self.net = self.W.Network()
+        self.shared = {}
+
+    def consume(self, kind, svc_tok, size, seed=0):
+        """run a discovery strategy (a consumer of the lookups that lives in /repo) for three steps over a stub overlay
+        backed by the real Network; returns the Network calls it issued as protocol lines with their answers as they were
+        AT CALL TIME: [(tokens, answer, returned Peer objects)]"""
+        import random
+        from ipv8.peerdiscovery import discovery
+        net, W, calls = self.net, self.W, []
+        svc = svc_bytes(svc_tok)
+
+        class Tap:
+            """forwards to the real Network, recording protocol lines"""
+            def __getattr__(self, name):
+                return getattr(net, name)
+
+            def get_peers_for_service(self, service_id):
+                ps = net.get_peers_for_service(service_id)
+                calls.append((["qs", svc_show(service_id)], show_list(show_peer(W.peer_key(p), W.peer_slots(p)) for p in ps), list(ps)))
+                return ps
+
+            def get_walkable_addresses(self, service_id=None, old_style=False):
+                r = net.get_walkable_addresses(service_id, old_style)
+                calls.append((["qw", "-" if service_id is None else svc_show(service_id), "1" if old_style else "0"],
+                              show_list(addr_token(a) for a in r), []))
+                return r
+
+            def get_introductions_from(self, peer):
+                r = net.get_introductions_from(peer)
+                calls.append((["qi", "p%d" % W.peer_key(peer)], show_list(addr_token(a) for a in r), []))
+                return r
+
+            def get_verified_by_address(self, address):
+                p = net.get_verified_by_address(address)
+                calls.append((["qa", addr_token(address), "-" if p is None else "p%d" % W.peer_key(p)],
+                              "none" if p is None else show_peer(W.peer_key(p), W.peer_slots(p)), [p] if p is not None else []))
+                return p
+
+            def remove_by_address(self, address):
+                net.remove_by_address(address)
+                calls.append((["rma", addr_token(address)], "ok", []))
+        tap = Tap()
+
+        class StubOverlay:
+            network = tap
+            community_id = svc
+
+            def get_peers(self):
+                return tap.get_peers_for_service(svc)
+
+            def get_walkable_addresses(self):
+                return tap.get_walkable_addresses(svc)
+
+            def bootstrap(self):
+                pass
+
+            def walk_to(self, address):
+                pass
+
+            def get_new_introduction(self, from_peer=None):
+                pass
+        cls = {"EdgeWalk": discovery.EdgeWalk, "RandomWalk": discovery.RandomWalk}.get(kind)
+        if cls is None:
+            raise InfraError(f"unknown consumer {kind}")
+        strategy = cls(StubOverlay(), neighborhood_size=size) if kind == "EdgeWalk" else cls(StubOverlay())
+        state = random.getstate()
+        random.seed(seed)          # the strategies draw from the global generator
+        try:
+            for _ in range(3):
+                strategy.take_step()
+        finally:
+            random.setstate(state)
+        return calls
 
     # peek interface used by the TOLERANT points of Spec
     def has_addr(self, tok):
@@ -560,7 +641,22 @@ class Real:
             n.discover_address(self.peer_arg(t[1]), W.addr_arg(t[2]), None if t[3] == "-" else svc_bytes(t[3]),
                                t[4] == "1")
         elif op == "svcs":
-            n.discover_services(self.peer_arg(t[1]), [svc_bytes(s) for s in parse_list(t[2])])
+            items = [svc_bytes(s) for s in parse_list(t[2])]
+            kind = t[3] if len(t) > 3 else "L"
+            if kind == "T":
+                arg = tuple(items)
+            elif kind == "G":
+                arg = (x for x in items)            # a one-shot iterable
+            elif kind == "D":
+                arg = dict.fromkeys(items).keys()   # a view
+            elif kind.startswith("S"):
+                # the caller's own set object, reused (and refilled) between calls
+                arg = self.shared.setdefault(kind, set())
+                arg.clear()
+                arg.update(items)
+            else:
+                arg = items
+            n.discover_services(self.peer_arg(t[1]), arg)
         elif op == "set":
             # what lazy_wrapper does before every handler: fetch the stored Peer and add the source address to it
             obj = n.verified_by_public_key_bin.get(W.key_bins[int(t[1][1:])])
@@ -767,6 +863,9 @@ def classify(spec: Spec, real: Real, t) -> list:
         out.append("svcs:" + ("verified-peer" if k in spec.V else "unverified-peer"))
         if "s0" in parse_list(t[2]):
             out.append("svcs:empty-service-id")
+        kind = t[3] if len(t) > 3 else "L"
+        out.append("svcs:services-passed-as:" + {"L": "list", "T": "tuple", "G": "one-shot-generator", "D": "dict-keys-view"}
+                   .get(kind, "callers-own-set-reused"))
     elif op == "qa":
         n = len(spec.peers_at(t[1]))
         out.append("qa:%s-candidates" % (n if n < 2 else "2+"))
@@ -841,11 +940,49 @@ def execute(ctx: Ctx, lines, tag: str):
     ('*' resolved to the stored object's addresses, qa hints filled in) and the implementation's answers"""
     real = Real()
     spec = Spec(real.W.order)
-    sent, answers = [], []
+    sent, answers = [], []          # replay lines (one per input line) and what the implementation answered
+    mlines, manswers = [], []       # what the model is asked (a `walk` line expands to the queries the consumer issued)
     last = real.digest()
     events = real.observe()
     for i, ln in enumerate(lines):
         t = resolve(ln.split(), real.canonical_token)
+        if t[0] == "walk":
+            # an in-repo CONSUMER of the lookups (a discovery strategy) runs against the Network: whatever it does with
+            # the objects it is handed, afterwards every lookup must still answer what the graph implies
+            ctx.count(f"class:walk:{t[1]}")
+            before = last
+            try:
+                calls = real.consume(t[1], t[2], int(t[3]), seed=i)
+            except InfraError:
+                raise
+            except Exception as e:
+                calls = []
+                ctx.oracle_fail(f"{t[1]}.take_step:raised", f"{ln} raised {e!r}", {"lines": sent + [ln], "failing_line": i})
+            sent.append(" ".join(t))
+            answers.append("ok")
+            for ct, got, objs in calls:
+                ctx.count(f"class:walk:issues:{ct[0]}")
+                if ct[0] in MUTATORS:
+                    spec.mutate(strip_classes(ct), real)
+                    before = real.digest()
+                elif not got.startswith("raised:"):
+                    check_query(ctx, spec, real, strip_classes(ct), got, objs, sent, i)
+                mlines.append(" ".join(ct))
+                manswers.append(got)
+            last = real.digest()
+            if last != before or last != spec.digest():
+                ctx.oracle_fail(f"{t[1]}.take_step:changes-graph", f"`{ln}` changed the graph: {before} -> {last}",
+                                {"lines": sent[:], "failing_line": i})
+                return sent, answers, False, (mlines, manswers)
+            # ask again what the consumer asked for: its handling of the returned objects must not have changed the answers
+            for again in ([f"qs {t[2]}", f"qw {t[2]} 0"] + [" ".join(ct) for ct, _g, _o in calls if ct[0] == "qi"][:2]):
+                at = again.split()
+                got, objs = real.query(at)
+                check_query(ctx, spec, real, at, got, objs, sent, i)
+                mlines.append(again)
+                manswers.append(got)
+            last = real.digest()
+            continue
         if t[0] == "load" and t[1] == "*":
             t[1] = real.net.snapshot().hex() or "-"
             ctx.count("class:load:own-snapshot-fed-back")
@@ -873,6 +1010,8 @@ def execute(ctx: Ctx, lines, tag: str):
             spec.mutate(t, real)
             sent.append(" ".join(full))
             answers.append(ans)
+            mlines.append(" ".join(full[:3] if full[0] == "svcs" else full))     # the container kind is the caller's business
+            manswers.append(ans)
             last = real.digest()
             if last != spec.digest():
                 d_r, d_s = last, spec.digest()
@@ -881,14 +1020,14 @@ def execute(ctx: Ctx, lines, tag: str):
                 ctx.oracle_fail(f"{_MUT_SITE[t[0]]}:{part}", f"after `{' '.join(t)}` {part} is {d_r[idx]}, the graph implies {d_s[idx]}",
                                 {"lines": sent[:], "failing_line": i})
                 ctx.count(f"oracle_fail:{_MUT_SITE[t[0]]}:{part}")
-                return sent, answers, False
+                return sent, answers, False, (mlines, manswers)
             # PeerObserver callbacks: exactly the keys that entered / left the membership, once each
             want = sorted([("added", k) for k in set(spec.V) - keys_before] + [("removed", k) for k in keys_before - set(spec.V)])
             if sorted(events) != want:
                 ctx.oracle_fail(f"{_MUT_SITE[t[0]]}:observer-events", f"after `{' '.join(t)}` observers saw {sorted(events)}, "
                                 f"membership changed by {want}", {"lines": sent[:], "failing_line": i})
                 ctx.count(f"oracle_fail:{_MUT_SITE[t[0]]}:observer-events")
-                return sent, answers, False
+                return sent, answers, False, (mlines, manswers)
             for ev, _k in want:
                 ctx.count("class:observer:" + ev)
         else:
@@ -902,12 +1041,14 @@ def execute(ctx: Ctx, lines, tag: str):
                 t[2] = full[2] = got.split("{")[0] if got != "none" else "-"
             sent.append(" ".join(full))
             answers.append(got)
+            mlines.append(" ".join(full))
+            manswers.append(got)
             last = real.digest()
             if last != before:
                 ctx.oracle_fail(f"{SITE[t[0]]}:query-mutates-state", f"`{' '.join(t)}` changed the graph: {before} -> {last}",
                                 {"lines": sent[:], "failing_line": i})
                 ctx.count(f"oracle_fail:{SITE[t[0]]}:query-mutates-state")
-                return sent, answers, False
+                return sent, answers, False, (mlines, manswers)
             if not got.startswith("raised:"):
                 check_query(ctx, spec, real, t, got, objs, sent, i)
         over = real.cache_overflow()
@@ -915,8 +1056,8 @@ def execute(ctx: Ctx, lines, tag: str):
             site = _MUT_SITE.get(t[0]) or SITE[t[0]]
             ctx.oracle_fail(f"{site}:cache-exceeds-cap", f"after `{' '.join(t)}` {over}", {"lines": sent[:], "failing_line": i})
             ctx.count(f"oracle_fail:{site}:cache-exceeds-cap")
-            return sent, answers, False
-    return sent, answers, True
+            return sent, answers, False, (mlines, manswers)
+    return sent, answers, True, (mlines, manswers)
 
 
 # ---------------------------------------------------------------------------------------------------------------
@@ -1004,7 +1145,7 @@ def random_sequence(rng, length, nkeys):
     if rng.random() < 0.15:
         emit("load %s" % rand_snapshot(rng, addrs))
     weights = [("add", 14), ("disc", 12), ("svcs", 9), ("set", 6), ("rmp", 7), ("rma", 6), ("bla", 1), ("blm", 0.3),
-               ("load", 1.5), ("caps", 0.4), ("qa", 12), ("qk", 6), ("qs", 8), ("qw", 9), ("qi", 8), ("qsp", 2), ("qn", 1), ("snap", 2)]
+               ("load", 1.5), ("caps", 0.4), ("walk", 3), ("qa", 12), ("qk", 6), ("qs", 8), ("qw", 9), ("qi", 8), ("qsp", 2), ("qn", 1), ("snap", 2)]
     names = [w[0] for w in weights]
     ws = [w[1] for w in weights]
 
@@ -1031,7 +1172,13 @@ def random_sequence(rng, length, nkeys):
                                        rng.choice(svcs + ["-"]), rng.random() < 0.4))
         elif op == "svcs":
             n = rng.choice([0, 1, 1, 1, 2, 3])
-            emit("svcs %s [%s]" % (ptok, ",".join(rng.sample(svcs, min(n, len(svcs))))))
+            emit("svcs %s [%s] %s" % (ptok, ",".join(rng.sample(svcs, min(n, len(svcs)))),
+                                      rng.choice(CONTAINERS) if rng.random() < 0.5 else "L"))
+        elif op == "walk":
+            if rng.random() < 0.7:
+                emit("walk EdgeWalk %s %d" % (rng.choice(SVCS), rng.choice([1, 1, 2, 3])))
+            else:
+                emit("walk RandomWalk %s 0" % rng.choice(SVCS))
         elif op == "set":
             kk = some_key(g.V)
             slot = rng.choice([0, 0, 1, 2, 3, 4])
@@ -1102,7 +1249,7 @@ def run_batch(ctx: Ctx, seqs, tag, use_model):
     """execute sequences on the implementation (+ oracle) and, in one driver batch, on the model"""
     all_lines, all_answers, marks = [], [], []
     for n_seq, lines in enumerate(seqs):
-        sent, answers, _ok = execute(ctx, lines, tag)
+        sent, answers, _ok, (mlines, manswers) = execute(ctx, lines, tag)
         ctx.case("\n".join(sent), stale_shape(sent))
         ctx.count(f"{tag}:sequences")
         ctx.count(f"{tag}:len<=%d" % (10 if len(sent) <= 10 else 50 if len(sent) <= 50 else 100 if len(sent) <= 100 else 400))
@@ -1118,8 +1265,8 @@ def run_batch(ctx: Ctx, seqs, tag, use_model):
         start = len(all_lines)
         all_lines.append("reset")
         all_answers.append("ok")
-        all_lines += sent
-        all_answers += answers
+        all_lines += mlines
+        all_answers += manswers
         marks.append((start, len(all_lines)))
     if use_model and ctx.model_ok and all_lines:
         replies = ctx.driver().batch(all_lines)
@@ -1204,6 +1351,17 @@ def scripted():
          f"disc p1:0={a} {V4[3]} s1 0", "svcs p1:- [s2]", "qw s2 0", "qi p1"],
         # caps raised in the middle of a history
         ["caps 1 1 1", f"add p0:0={a}", f"add p1:0={b}", f"qa {a} ?", f"qa {b} ?", "caps 2 2 2", f"qa {a} ?", f"qa {b} ?", "qs s1", "qs s2"],
+        # objects that cross the API boundary.  (out) a consumer in /repo is handed the live per-service list / introduction
+        # list and may do with it what it likes: the answers must stay what the graph implies
+        [c500, f"add p0:0={a}", f"add p1:0={b}", f"add p2:0={x}", "svcs p0:- [s1]", "svcs p1:- [s1]", "svcs p2:- [s1]",
+         "walk EdgeWalk s1 1", "qs s1", "walk EdgeWalk s1 2", "qs s1", "walk RandomWalk s1 0", "qs s1"],
+        ["caps 1 1 1", f"disc p0:0={a} {x} s1 0", f"disc p0:0={a} {V4[3]} s1 0", "svcs p0:- [s1]", f"add p1:0={x}",
+         "svcs p1:- [s1]", "walk EdgeWalk s1 1", "qi p0", "qs s1", "walk EdgeWalk s1 2", "qi p0", "qs s1"],
+        # (in) the caller keeps using the container it passed: its own set reused for another peer, a one-shot generator,
+        # a tuple, a dict view — with a warm per-service cache
+        [c500, f"add p0:0={a}", f"add p1:0={b}", "qs s1", "qs s2", "svcs p0:- [s1] S0", "svcs p1:- [s2] S0", "qsp p0", "qsp p1",
+         "svcs p0:- [s3] S1", "qsp p1", "qs s1", "qs s2", "qs s3"],
+        [c500, f"add p0:0={a}", "qs s1", "qs s2", "svcs p0:- [s1] G", "qs s1", "svcs p0:- [s2] D", "qs s2", "svcs p0:- [s3] T", "qs s3"],
         # deterministic hits for branch classes the other shapes leave to the random part (see REQUIRED_CLASSES)
         [c500, "add p0:-", f"add p1:^0={a}", f"bla {x}", f"add p2:0={a},3={x}", f"disc @p1:* {V4[3]} s1 0", f"rmp p1:0={b}",
          f"bla {b}", "load " + addr_chunk(b).hex() + addr_chunk(a).hex()[:6], f"qa {V6[0]}~1 ?", f"qa {DOM[0]}~4 ?",
@@ -1246,7 +1404,7 @@ def replay(ctx: Ctx, rec: dict):
     r = rec.get("replay", rec)
     lines = r["lines"]
     before = len(ctx.failures)
-    sent, answers, _ = execute(ctx, lines, "replay")
+    sent, answers, _, _m = execute(ctx, lines, "replay")
     for ln, a in zip(sent, answers):
         print(f"replay: {ln:60s} -> {a}")
     ctx.case("\n".join(sent), True)
